@@ -15,6 +15,9 @@ _SOH_LOOP = ("    while augmenting_path_for(residual_graph):\n        path = aug
              "        residual_graph, residual_function = residual_network(graph,\n"
              "                                                             flow_function)\n")
 
+_SOH_INIT = ("    flow_function = [[0 for sh in range(dim)] for s in range(dim)]\n"
+             "    residual_graph, residual_function = residual_network(graph, flow_function)\n    while")
+
 _SBS = "        for peerid in peers:\n            ret.setdefault(peerid, set()).add(shareid)\n"
 
 MUTANTS = [
@@ -143,6 +146,90 @@ MUTANTS = [
     M("vanish-shares-by-server-loops", HZ, "    for shareid, peers in servermap.items():\n        assert isinstance(peers, set)\n" + _SBS,
       "    for peerid in set().union(*servermap.values()):\n        ret[peerid] = set(s for s in servermap if peerid in servermap[s])\n",
       "ANALYSIS-ERROR", note="another way to invert the map: not decided, reported as analysis error rather than passed"),
+
+    # ---- C08.6 no state that outlives the call
+    M("state-last-inversion-remembered", HZ,
+      "    ret = {}\n    for shareid, peers in servermap.items():\n        assert isinstance(peers, set)\n" + _SBS + "    return ret\n",
+      "    global _last_inversion\n    last_map, last_len, last_ret = _last_inversion\n"
+      "    if servermap is last_map and len(servermap) == last_len:\n        return last_ret\n"
+      "    ret = {}\n    for shareid, peers in servermap.items():\n        assert isinstance(peers, set)\n" + _SBS +
+      "    _last_inversion = (servermap, len(servermap), ret)\n    return ret\n", "C08.6",
+      edits=[(HZ, "def shares_by_server(servermap):\n", "_last_inversion = (None, 0, None)\n\ndef shares_by_server(servermap):\n")],
+      note="seeded C08-H: the inversion of the same dict object with the same number of shares is answered from memory"),
+    M("state-happiness-cached-by-identity", HZ, "    if sharemap == {}:\n        return 0\n    servermap = shares_by_server(sharemap)\n",
+      "    if sharemap == {}:\n        return 0\n    known = _happiness_seen.get(id(sharemap))\n"
+      "    if known is not None and known[0] == sorted(sharemap):\n        return known[1]\n"
+      "    servermap = shares_by_server(sharemap)\n", "C08.6",
+      edits=[(HZ, "def servers_of_happiness(sharemap):\n", "_happiness_seen = {}\n\ndef servers_of_happiness(sharemap):\n"),
+             (HZ, "    return sum([flow_function[0][v] for v in range(1, num_servers+1)])\n",
+              "    value = sum([flow_function[0][v] for v in range(1, num_servers+1)])\n"
+              "    _happiness_seen[id(sharemap)] = (sorted(sharemap), value)\n    return value\n")],
+      note="a module-level cache keyed by the identity and the share numbers, not by the servers of each share"),
+    M("state-memo-in-mutable-default", HZ,
+      "    ret = {}\n    for shareid, peers in servermap.items():\n        assert isinstance(peers, set)\n" + _SBS + "    return ret\n",
+      "    hit = _memo.get(id(servermap))\n    if hit is not None and hit[0] == len(servermap):\n        return hit[1]\n"
+      "    ret = {}\n    for shareid, peers in servermap.items():\n        assert isinstance(peers, set)\n" + _SBS +
+      "    _memo[id(servermap)] = (len(servermap), ret)\n    return ret\n", "C08.6",
+      edits=[(HZ, "def shares_by_server(servermap):\n", "def shares_by_server(servermap, _memo={}):\n")]),
+    M("state-reindex-remembers-share-numbers", HZ, "    shares  = {} # shareid  -> vertex index\n",
+      "    shares = _share_vertices\n", "C08.6",
+      edits=[(HZ, "# XXX warning: this is different from happiness_upload's _reindex!\n",
+              "_share_vertices = {} # shareid  -> vertex index\n\n# XXX warning: this is different from happiness_upload's _reindex!\n")],
+      note="sibling site: the share numbering table survives the call, a second map re-uses vertex numbers of the first"),
+    M("state-memo-on-a-class-attribute", HZ,
+      "    ret = {}\n    for shareid, peers in servermap.items():\n        assert isinstance(peers, set)\n" + _SBS + "    return ret\n",
+      "    if _Memo.last[0] is servermap and _Memo.last[1] == len(servermap):\n        return _Memo.last[2]\n"
+      "    ret = {}\n    for shareid, peers in servermap.items():\n        assert isinstance(peers, set)\n" + _SBS +
+      "    _Memo.last = (servermap, len(servermap), ret)\n    return ret\n", "C08.6",
+      edits=[(HZ, "def shares_by_server(servermap):\n", "class _Memo(object):\n    last = (None, 0, None)\n\ndef shares_by_server(servermap):\n")]),
+    M("state-call-counter-decides-the-result", HZ,
+      "    ret = {}\n    for shareid, peers in servermap.items():\n        assert isinstance(peers, set)\n",
+      "    global _inversions\n    _inversions += 1\n    if _inversions > 100000:\n        return {}\n"
+      "    ret = {}\n    for shareid, peers in servermap.items():\n        assert isinstance(peers, set)\n", "C08.6",
+      edits=[(HZ, "def shares_by_server(servermap):\n", "_inversions = 0\n\ndef shares_by_server(servermap):\n")]),
+    M("state-benign-counter-logged", HZ,
+      "    ret = {}\n    for shareid, peers in servermap.items():\n        assert isinstance(peers, set)\n",
+      "    global _inversions\n    _inversions += 1\n    if _inversions % 1000 == 0:\n        print('inversions so far', _inversions)\n"
+      "    ret = {}\n    for shareid, peers in servermap.items():\n        assert isinstance(peers, set)\n", None,
+      edits=[(HZ, "def shares_by_server(servermap):\n", "_inversions = 0\n\ndef shares_by_server(servermap):\n")],
+      note="the branch on the counter guards nothing but a message"),
+    M("state-benign-call-counter", HZ, "    if sharemap == {}:\n        return 0\n    servermap = shares_by_server(sharemap)\n",
+      "    global _happiness_computed\n    _happiness_computed += 1\n    _sizes_seen.append(len(sharemap))\n"
+      "    if sharemap == {}:\n        return 0\n    servermap = shares_by_server(sharemap)\n", None,
+      edits=[(HZ, "def servers_of_happiness(sharemap):\n", "_happiness_computed = 0\n_sizes_seen = []\n\ndef servers_of_happiness(sharemap):\n")],
+      note="statistics that are written but never read by the computation"),
+    M("state-benign-lazily-built-constant", HZ,
+      "    ret = {}\n    for shareid, peers in servermap.items():\n        assert isinstance(peers, set)\n",
+      "    global _SET_TYPES\n    if _SET_TYPES is None:\n        _SET_TYPES = (set, frozenset)\n"
+      "    ret = {}\n    for shareid, peers in servermap.items():\n        assert isinstance(peers, _SET_TYPES)\n", None,
+      edits=[(HZ, "def shares_by_server(servermap):\n", "_SET_TYPES = None\n\ndef shares_by_server(servermap):\n")],
+      note="a module-level value built on first use from constants only: not state of earlier calls"),
+
+    # ---- C08.7 who may change the flow table
+    M("flow-greedy-warm-start-helper", HZ, "def servers_of_happiness(sharemap):\n",
+      "def _greedy_initial_flow(graph, flow_function):\n    claimed = set()\n    for server in graph[0]:\n"
+      "        for share in graph[server]:\n            if share not in claimed:\n                claimed.add(share)\n"
+      "                flow_function[0][server] = 1\n                flow_function[server][0] = -1\n"
+      "                flow_function[server][share] = 1\n                flow_function[share][server] = -1\n"
+      "                break\n\n\ndef servers_of_happiness(sharemap):\n", "C08.7",
+      edits=[(HZ, _SOH_INIT, _SOH_INIT.replace("\n    residual_graph", "\n    _greedy_initial_flow(graph, flow_function)\n    residual_graph", 1))],
+      note="seeded C07-H at the sibling copy: units source->server->share without share->sink; a second server is routed "
+      "through a claimed share and the value counts the share twice"),
+    M("flow-source-edges-saturated-through-row", HZ, _SOH_INIT,
+      _SOH_INIT.replace("\n    residual_graph", "\n    source_row = flow_function[0]\n    for v in graph[0]:\n        source_row[v] = 1\n    residual_graph", 1),
+      "C08.7", note="the value is read from the source row: every server counts although nothing was matched"),
+    M("flow-residual-network-clamps-the-flow", HU,
+      "                new_graph[i].append(v)\n                cf[i][v] = 1\n                cf[v][i] = -1\n",
+      "                new_graph[i].append(v)\n                cf[i][v] = 1\n                cf[v][i] = -1\n                f[i][v] = 0\n",
+      "C08.7"),
+    M("flow-benign-read-only-checker", HZ, "def servers_of_happiness(sharemap):\n",
+      "def _assert_skew_symmetric(f):\n    for u in range(len(f)):\n        row = f[u]\n        for v in range(len(row)):\n"
+      "            assert row[v] == -f[v][u]\n\n\ndef servers_of_happiness(sharemap):\n", None,
+      edits=[(HZ, "    num_servers = len(servermap)\n    # The value of a flow", "    _assert_skew_symmetric(flow_function)\n    num_servers = len(servermap)\n    # The value of a flow")]),
+    M("flow-benign-snapshot-copy", HZ, "    num_servers = len(servermap)\n    # The value of a flow",
+      "    snapshot = deepcopy(flow_function)\n    snapshot.append([])\n    out_of_source = list(flow_function[0])\n    out_of_source.append(0)\n"
+      "    num_servers = len(servermap)\n    # The value of a flow", None,
+      note="copies of the table / of a row may be changed freely"),
 
     # ---- vanished anchors
     M("vanish-bfs", HU, "def bfs(graph, s):", "def bfsX(graph, s):", "ANALYSIS-ERROR",
